@@ -10,11 +10,10 @@ import os
 import vlib
 
 MODEL = {"quick": dict(MaxN=3, MaxN2=2, NegV=2, PosV=3, Sorted="TRUE"),
-         "thorough": dict(MaxN=4, MaxN2=3, NegV=2, PosV=3, Sorted="FALSE")}
+         "thorough": dict(MaxN=4, MaxN2=3, NegV=2, PosV=3, Sorted="TRUE")}
 GEN = {"quick": dict(N1=4, N2=3, Thin2=8, PN=3, NW=4, ThinW=32, Thin3=0),
        "thorough": dict(N1=5, N2=4, Thin2=6, PN=4, NW=4, ThinW=8, Thin3=60)}
 INVS = ["InvAccept", "InvTight", "InvPost", "InvPostTight", "InvOrder", "InvAffine"]
-ACTIONS = ["Fit", "Apply", "Done"]
 TRACE_CONST = dict(MaxN=0, MaxN2=0, NegV=0, PosV=0, Sorted="FALSE")
 
 LIN_VARIANTS = [("std", 0, 1), ("nomean", 0, 1), ("nostd", 0, 1), ("none", 0, 1), ("maxabs", 0, 1), ("minmax", 0, 1),
@@ -112,7 +111,9 @@ def run(ctx):
     if os.environ.get("VERIF_C16_SKIP_MC"):      # development only (mutant loops): the design model does not depend on the code
         vlib.log("design model skipped (VERIF_C16_SKIP_MC)")
     else:
-        vlib.tlc_mc(ctx, "Scaling", {"spec": "Spec", "constants": MODEL[ctx.tier], "invariants": INVS}, coverage_actions=ACTIONS)
+        # vacuity: the POSTCONDITION PostDepth fails (tool error) unless Fit, every Apply and Done were taken; TLC's
+        # periodic -coverage dumps are not used (the first dump of a long run precedes the deepest action)
+        vlib.tlc_mc(ctx, "Scaling", {"spec": "Spec", "constants": MODEL[ctx.tier], "invariants": INVS, "postcondition": "PostDepth"})
     cases = vlib.tlc_gen(ctx, "Gen_Scaling", {"constants": GEN[ctx.tier], "invariants": ["Emit"]})
     ctx.exhaustive = False      # parts of the domain are hash samples; the completely enumerated sub-domains are listed below
     ctx.extra["exhaustive_subdomains"] = [
